@@ -8,7 +8,8 @@ Read with `ast` from hdl21/sim/data.py and hdl21/sim/proto.py, cross-checked aga
   vlsir_save_modes    member names of vlsir.spice.Save.SaveMode (live protobuf enum: no source in the tree)
   save_mode_exported  pairs (data.SaveMode member, vsp.Save.SaveMode member) of export_save's if/elif chain
   sim_protected_names the `protected_names` list literal of data.py:sim
-  auto_name_prefix    what SimProtoExporter puts before the counter in the name of an unnamed analysis
+  (the prefix of the names of unnamed analyses is a step of its own, 17a_sim_autoname.py -> C17Names.v: the MODEL depends on
+   it, and must keep building when one of the tables below fails closed, so that the streams can still look for a failing input)
 Each table is read off the BEHAVIOUR of the live code over its whole (finite) domain; the source form, where it is still
 recognisable, gives the order and must agree (else the step fails closed).
 """
@@ -183,18 +184,6 @@ else:
 if not pn:
     die("data.py:sim: no protected name found")
 
-# ---- the names given to UNNAMED analyses: `<prefix><counter>`.  BEHAVIOUR: a Sim of twelve unnamed analyses through the
-#      public to_proto; every name must be one prefix followed by the decimal position
-_sim = _d.Sim(tb=_tb, attrs=[_d.Op() for _ in range(12)])
-_inp = _p.to_proto(_sim)
-_names = [getattr(a, a.WhichOneof("an")).analysis_name for a in _inp.an]
-if len(_names) != 12 or not _names[0].endswith("0"):
-    die(f"unnamed analyses: names {_names[:3]}... do not end in a counter starting at 0")
-auto_prefix = _names[0][:-1]
-if _names != [auto_prefix + str(k) for k in range(12)]:
-    die(f"unnamed analyses: names {_names} are not one prefix followed by the decimal position")
-
-
 def _ok(s):
     if not all(32 <= ord(ch) < 127 for ch in s):
         die(f"non-ASCII table entry {s!r}")
@@ -211,5 +200,4 @@ def _lst(name, xs):
 
 emit("C17Tables", _pairs("analysis_types", an_types) + _lst("control_union", ctrl_union)
      + _pairs("hdl_save_modes", hdl_modes) + _lst("vlsir_save_modes", vlsir_modes)
-     + _pairs("save_mode_exported", pairs) + _lst("sim_protected_names", pn)
-     + f"Definition auto_name_prefix : string := {_ok(auto_prefix)}.\n")
+     + _pairs("save_mode_exported", pairs) + _lst("sim_protected_names", pn))
